@@ -626,6 +626,8 @@ def rule_send_queue(ctx, rule_id="C01.5-send-queue-fifo"):
             ok = True
         elif isinstance(p, ast.Assign) and isinstance(n.ctx, ast.Store) and isinstance(p.value, ast.Call) and norm.text(p.value.func) == "deque" and not p.value.args:
             ok = True
+        elif isinstance(p, ast.BoolOp) or (isinstance(p, ast.UnaryOp) and isinstance(p.op, ast.Not)) or (isinstance(p, (ast.If, ast.While, ast.IfExp)) and p.test is n):
+            ok = True   # truth value of the queue (empty or not): reads nothing but its length
         ctx.ob(f"{ff.qualname}: send_queue used as FIFO only ({what[:50]})", ok,
                "send queue touched by an operation other than append / popleft / len / deque()", ff.loc(n))
     fn = ctx.program.func(f"{WSP}.sendData")
@@ -633,7 +635,8 @@ def rule_send_queue(ctx, rule_id="C01.5-send-queue-fifo"):
     direct = [(n, c) for n in g.stmt_nodes() for c in node_calls(n) if norm.text(c.func) == "self.transport.write"]
     ctx.require(len(direct) == 1, "sendData: direct transport.write not found")
     facts = mf.at(direct[0][0])
-    ok = ("truth", "sync", None, False) in facts and ("lt", ("c", 0), ("e", "len(self.send_queue)"), False) in facts
+    ok = ("truth", "sync", None, False) in facts and (("lt", ("c", 0), ("e", "len(self.send_queue)"), False) in facts or ("truth", "self.send_queue", None, False) in facts
+                                                       or ("eq", "len(self.send_queue)", ("c", 0), True) in facts)
     ctx.ob("sendData: direct write only when not sync and nothing is queued", ok,
            "a direct transport.write can overtake queued (chopped/synced) writes", fn.loc(direct[0][1]))
     ctx.ob("sendData: direct write sends the data unmodified", [norm.text(a) for a in direct[0][1].args] == ["data"], "write argument changed", fn.loc(direct[0][1]))
